@@ -2,7 +2,7 @@
 ID = 'C16'
 PROP_FILE = 'Properties/C16.v'
 # extraction needs every model file of frag_ppu.txt compiled, also those outside this property's closure
-EXTRA_COQ = ['model/Oam.v', 'model/PpuTiming.v']
+EXTRA_COQ = ['model/Oam.v', 'model/PpuTiming.v', 'proofs/OamProofs.v']
 RULE = ('every source page 00-FF (the statement: 00-F1) with a source oracle byte = f(address, cycle) shared by '
         'both sides, constant and changing every cycle, from random initial OAM contents: FF46 read-back, OAM '
         'read through Read after every one of 162+ cycles (run-length encoded), full OAM dump and engine state '
@@ -132,9 +132,18 @@ def spec_check(script, out):
                         t0, xx, (sa, sb) = start
                         oam = [src(source(xx) + i, t0 + i + 1, sa, sb) for i in range(160)]
                     if running:
+                        # the statement bounds the duration (<= 162 cycles) but does not fix it: a value other
+                        # than 0xFF is acceptable only if the copy is over, i.e. it is the copied source byte
                         if vals[j] != 255:
-                            return ('cycle %d after the write to FF46: Read(%04x) = %d while the transfer runs, '
-                                    'the statement says 255' % (t - start[0], addr, vals[j]))
+                            want = None
+                            if start[2] not in (None, 'mixed'):
+                                sa, sb = start[2]
+                                i = addr - 0xfe00
+                                want = src(source(start[1]) + i, start[0] + i + 1, sa, sb) if i < 160 else 0
+                            if vals[j] != want:
+                                return ('cycle %d after the write to FF46: Read(%04x) = %d, which is neither 0xFF '
+                                        '(transfer running) nor the copied source byte %s (transfer over)'
+                                        % (t - start[0], addr, vals[j], want))
                     elif oam is not None:
                         want = oam[addr - 0xfe00] if addr < 0xfea0 else 0
                         if vals[j] != want:
